@@ -459,8 +459,20 @@ func (vs *ValidatorStore) GetEndBlockUpdate(ctx *ValidatorContext, req types.Req
 				}
 			}
 
+			// the record of a validator without power may only be deleted
+			// - if the CURRENT record has no power either (a stake delivered in this block must not be lost), and
+			// - once Tendermint cannot hold the validator any more: the record (public key) is needed for the
+			//   power-0 update, which is only issued when the validator shows up in the last commit, and an
+			//   update issued before it lost its stake becomes visible there up to two blocks later
+			deletable := false
+			if current, err := vs.Get(validator.Address); err == nil && current.Power <= 0 {
+				_, inLastCommit := vs.lastActive[string(validator.Address)]
+				status, _ := ctx.EvidenceStore.GetValidatorStatus(validator.Address)
+				deletable = !inLastCommit && status != nil && !status.IsActive && height >= status.Height+2
+			}
+
 			// delete validator who's power is 0
-			if validator.Power <= 0 {
+			if validator.Power <= 0 && deletable {
 				vKey := append(vs.prefix, validator.Address.Bytes()...)
 				fmt.Println("Deleting :", validator.Address.String())
 				//TODO: validator delete will not properly delete the item because of state implementation
